@@ -28,10 +28,11 @@ TAG = {"encode_sequence": "SEQ", "encode_integer": "INT", "encode_octet_string":
 
 EXEMPT_DROPS = {
     "keys:SigningKey.from_der": {
-        # keyed by (DER reader, ordinal of that reader's call in source order): independent of local names
-        ("remove_octet_string", 1): "PKCS#8 attributes / publicKey after the privateKey OCTET STRING are ignored (documented)",
-        ("remove_constructed", 1): "ECPrivateKey publicKey [1] after the parameters is ignored (documented)",
-        ("remove_octet_string", 2): "tail of ECPrivateKey after privateKey is ignored when the curve is known from the PKCS#8 algorithm identifier (documented)",
+        # keyed by (DER reader, reader of the preceding sibling element): independent of local names
+        # and of which function of keys.py performs the call
+        ("remove_octet_string", "remove_sequence"): "PKCS#8 attributes / publicKey after the privateKey OCTET STRING are ignored (documented)",
+        ("remove_constructed", "remove_octet_string"): "ECPrivateKey publicKey [1] after the parameters is ignored (documented)",
+        ("remove_octet_string", "remove_integer"): "tail of ECPrivateKey after privateKey is ignored when the curve is known from the PKCS#8 algorithm identifier (documented)",
     }
 }
 
@@ -89,7 +90,7 @@ def reader_trees(W, qname, cls):
     calls = []
     for r in readers:
         for caller, site, cargs, ckw, st, rr in it.watch_results[r]:
-            if caller != qname or not cargs or not isinstance(cargs[0], VBytes):
+            if caller.split(":")[0] in ("der", "_compat") or not cargs or not isinstance(cargs[0], VBytes):
                 continue
             for v, s in rr:
                 if not isinstance(v, VTuple):
@@ -196,8 +197,15 @@ def run(chk):
     # PKCS#8 paths: the outer version the writer emits (INT 1, see want_p8) must be acceptable to the
     # reader, i.e. not refuted by the facts of any accepting return that went through the
     # PKCS#8 branch (two INTEGER reads on the path)
-    ri = [c for c in it_sk.watch_results["der:remove_integer"] if c[0] == f.qname]
-    sites_ri = sorted({c[1][1] for c in ri})
+    ri = [c for c in it_sk.watch_results["der:remove_integer"] if c[0].split(":")[0] not in ("der", "_compat") and c[2] and isinstance(c[2][0], VBytes)]
+
+    def nesting(t):
+        return sum(1 for x in subterms_(t) if isinstance(x, tuple) and x and x[0] == "slice")
+    from .c11 import subterms as subterms_
+    depth_of = {}
+    for c in ri:
+        depth_of.setdefault((c[0], c[1][1]), nesting(c[2][0].t))
+    sites_ri = [k[1] for k in sorted(depth_of, key=lambda k: depth_of[k])]
     okv8 = len(sites_ri) == 2
     n8 = ncompat = 0
     if okv8:
@@ -213,13 +221,15 @@ def run(chk):
     chk.ob("R09.1", "PKCS#8 reader accepts the outer version the writer emits (1) [%d of %d PKCS#8 accepting state(s) admit version 1]" % (ncompat, n8), okv8 and ncompat > 0, loc=f.qname, key="C09|R09.1|p8-version",
            detail="no accepting PKCS#8 path of from_der is compatible with the version INTEGER 1 that to_der(format='pkcs8') writes: the library cannot read its own PKCS#8 output")
     oid_w = [n for n in ast.walk(sk_der.node) if isinstance(n, ast.Call) and norm_text(n.func).endswith("encode_oid")]
-    chk.ob("R09.1", "PKCS#8 writer uses oid_ecPublicKey, which the reader accepts", len(oid_w) == 1 and norm_text(oid_w[0].args[0]) == "*oid_ecPublicKey" and any(isinstance(n, ast.Name) and n.id == "oid_ecPublicKey" for n in ast.walk(f.node)), loc=sk_der.qname, key="C09|R09.1|oid", detail="algorithm OID written is not among those accepted")
+    cone_nodes = [p.func(q_).node for q_ in it_sk.functions_analysed if q_.startswith("keys:")]
+    chk.ob("R09.1", "PKCS#8 writer uses oid_ecPublicKey, which the reader accepts", len(oid_w) == 1 and norm_text(oid_w[0].args[0]) == "*oid_ecPublicKey" and any(isinstance(n, ast.Name) and n.id == "oid_ecPublicKey" for fn_ in cone_nodes for n in ast.walk(fn_)), loc=sk_der.qname, key="C09|R09.1|oid", detail="algorithm OID written is not among those accepted")
     # ---------------- R09.7
     ex = EXEMPT_DROPS["keys:SigningKey.from_der"]
     dropped = []
     for e in res_sk:
         if not e["ok"]:
-            dropped.append(call_ordinal(f.node, e["site"][2]) or e["site"][2])
+            pv = sorted(e.get("prev") or ["?"])
+            dropped.append((e["reader"].split(":")[1], pv[0]) if len(pv) == 1 else e["site"][2])
     unexpected = [d for d in dropped if d not in ex]
     chk.ob("R09.7", "SigningKey.from_der drops only documented remainders %s" % sorted(dropped), not unexpected, loc=f.qname, key="C09|R09.7", detail="undocumented dropped remainder: %s" % unexpected)
     for e in res_vk:
@@ -324,7 +334,12 @@ def run(chk):
     tp = p.func("keys:SigningKey.to_pem")
     written = {c.value for c in ast.walk(tp.node) if isinstance(c, ast.Constant) and isinstance(c.value, str) and "PRIVATE KEY" in c.value and len(c.value) < 30}
     fp = p.func("keys:SigningKey.from_pem")
-    searched = {c.value.decode() for c in ast.walk(fp.node) if isinstance(c, ast.Constant) and isinstance(c.value, bytes) and b"PRIVATE KEY" in c.value}
+    src_nodes = [fp.node] + [p.modules["keys"].globals[n_.id] for n_ in ast.walk(fp.node) if isinstance(n_, ast.Name) and n_.id in p.modules["keys"].globals and isinstance(p.modules["keys"].globals[n_.id], ast.AST)]
+    searched = set()
+    for sn in src_nodes:
+        for c in ast.walk(sn):
+            if isinstance(c, ast.Constant) and isinstance(c.value, (bytes, str)) and "PRIVATE KEY" in (c.value.decode("latin-1") if isinstance(c.value, bytes) else c.value) and len(c.value) < 60:
+                searched.add(c.value.decode("latin-1") if isinstance(c.value, bytes) else c.value)
     okl = bool(written) and all(("-----BEGIN %s-----" % w) in searched for w in written)
     chk.ob("R09.4", "private PEM labels written %s are searched for by from_pem %s" % (sorted(written), sorted(searched)), okl, loc=tp.qname, key="C09|R09.4", detail="to_pem writes a label from_pem does not look for")
     fmt_ok = "'EC PRIVATE KEY' if format == 'ssleay' else 'PRIVATE KEY'" in norm_text(tp.node)
